@@ -17,11 +17,30 @@ def data_frame(rnd, qos, body, fc1=None):
     return hdr + body
 
 
-def eapol_body(rnd, keyinfo, declared, avail, llc=LLC):
+FIELDS = {"version": (0, 1), "type": (1, 1), "length": (2, 2), "descriptor": (4, 1), "key_length": (7, 2), "replay": (9, 8), "nonce": (17, 32), "iv": (49, 16),
+          "rsc": (65, 8), "id": (73, 8), "mic": (81, 16)}
+
+
+def eapol_body(rnd, keyinfo, declared, avail, llc=LLC, fill=None):
+    """fill: {field name: octet} - that descriptor field filled with one octet value (e.g. a zero key length next to key data)"""
     e = bytearray(rnd.getrandbits(8) for _ in range(99))
     e[5:7] = keyinfo.to_bytes(2, "big")
     e[97:99] = declared.to_bytes(2, "big")
+    for f, v in (fill or {}).items():
+        off, n = FIELDS[f]
+        e[off:off + n] = bytes([v]) * n
     return llc + bytes(e) + bytes(rnd.getrandbits(8) for _ in range(avail))
+
+
+def field_lines(rnd):
+    """every descriptor field all-zero and all-ones in turn, with and without key data, QoS and not"""
+    out = []
+    for f in FIELDS:
+        for v in (0x00, 0xff):
+            for d, a in ((0, 0), (22, 22), (22, 0), (5, 30)):
+                for qos in (0, 1):
+                    out.append("eap 0 " + data_frame(rnd, qos, eapol_body(rnd, rnd.choice([0x008a, 0x010a, 0x13ca, 0x030a]), d, a, fill={f: v})).hex())
+    return out
 
 
 def check(ctx):
@@ -67,6 +86,7 @@ def check(ctx):
         fr[0] = rnd.choice([0x80, 0x40, 0xb4, 0xd0, 0x0c, 0x48, 0xc8])
         lines.append("eap 0 " + bytes(fr).hex())
     fw.run_suite(ctx, exe, "S-eap/recognition", lines, "EAPOL")
+    fw.run_suite(ctx, exe, "S-eap/field-extremes", field_lines(rnd), "EAPOL extraction with one descriptor field all-zero / all-ones")
     import frames as _fr
     fw.run_suite(ctx, exe, "S-eap/size-ladder", [l for l in _fr.size_ladder(rnd, ctx.tier) if l.startswith("eap ")], "EAPOL extraction from long frames")
     ci = fw.corpus_inputs(ctx, random.Random(ctx.seed + 77))
